@@ -13,6 +13,7 @@ AGENT = "pkg/agent"
 ROUTING = "pkg/routing"
 STORAGE = "pkg/storage"
 DTNTOOL = "cmd/dtn-tool"
+DTND = "cmd/dtnd"
 
 HOOK_COMMITS = ["verif hooks: named hook points for the verification harness (no-ops without the verif build tag)"]
 NOT_YET = {}
@@ -271,6 +272,7 @@ PROPS = {
             {"name": "c07.late-registration", "pkg": ROUTING, "test": "TestVerifC07LateRegistration", "shards_t": 8, "shards_q": 4, "crash_is_violation": True},
             {"name": "c07.two-nodes", "pkg": ROUTING, "test": "TestVerifC07TwoNodes", "shards_t": 16, "shards_q": 8, "crash_is_violation": True},
             {"name": "c07.slow-agent", "pkg": ROUTING, "test": "TestVerifC07SlowAgent", "shards_t": 12, "shards_q": 6, "crash_is_violation": True},
+            {"name": "c07.dtnd", "pkg": DTND, "test": "TestVerifC07Dtnd", "shards_t": 12, "shards_q": 6, "crash_is_violation": True},
         ],
     },
     "C18": {
